@@ -172,7 +172,7 @@ pub fn check_pos(ctx: &mut Ctx, mp: &MPos, b: &Board) {
 }
 
 pub fn run(ctx: &mut Ctx) {
-    let n = ctx.budget(120_000, 5_000_000);
+    let n = ctx.budget(1_500_000, 20_000_000);
     let mut src = Sources::standard(n);
     src.three_man = n / 20;
     stream::run(ctx, &src, &mut check_pos);
